@@ -24,6 +24,7 @@ import (
 
 	zasn1 "github.com/zmap/zcrypto/encoding/asn1"
 	"verifmc/internal/ev"
+	"verifmc/internal/nohb"
 )
 
 // coreOpts: the options paired with each other in 2-field structs in the quick tier.
@@ -185,7 +186,29 @@ func candidates(t *tnode, vn *vnode, try func(cand) bool) {
 				return
 			}
 		}
-		if f.opt.hasTag && f.opt.tag != 1 && (f.opt.tag >= 31 || univOpt[f.opt.s] != 0) {
+		isUnivNum := false
+		for _, u := range univNums {
+			isUnivNum = isUnivNum || (f.opt.hasTag && f.opt.tag == u)
+		}
+		if len(toks) >= 2 {
+			// token order: move to the lexicographically smallest order that fails the same way, so that
+			// all orders hit by one defect are reported under one type
+			perms := permutations(toks)
+			strs := make([]string, len(perms))
+			for k, pm := range perms {
+				strs[k] = strings.Join(pm, ",")
+			}
+			sort.Strings(strs)
+			for _, ps := range strs {
+				if ps >= f.opt.s {
+					break
+				}
+				if tryOpt(strings.Split(ps, ","), false) {
+					return
+				}
+			}
+		}
+		if f.opt.hasTag && f.opt.tag != 1 && (f.opt.tag >= 31 || isUnivNum) {
 			var rest []string
 			for _, tok := range toks {
 				if strings.HasPrefix(tok, "tag:") {
@@ -221,13 +244,14 @@ func candidates(t *tnode, vn *vnode, try func(cand) bool) {
 // the same failure class inside the domain; only used to name the violation.
 func shrink(t *tnode, vn *vnode, r result) (*tnode, *vnode, result) {
 	head := failHead(r.fail)
+	cross := strings.Contains(head, "Go's encoding/asn1") // a verdict of the second oracle is only reproduced with it
 	for iter := 0; iter < 64; iter++ {
 		moved := false
 		candidates(t, vn, func(c cand) bool {
 			if !typeOK(c.t) {
 				return false
 			}
-			if cr := runCase(c.t, c.v, false); cr.fail != "" && failHead(cr.fail) == head {
+			if cr := runCase(c.t, c.v, cross); cr.fail != "" && failHead(cr.fail) == head {
 				t, vn, r, moved = c.t, c.v, cr, true
 				return true
 			}
@@ -269,6 +293,7 @@ type job struct {
 	a, b, d int // spec indices
 	o       int // outer option index (shapes 4,5)
 	tail    bool
+	p       *pjob // shape 6: a prebuilt type of perm.go (permuted option order / two optionals by tag number)
 }
 
 type acc struct {
@@ -287,13 +312,17 @@ func alphabet(k *kind, level int) []int {
 }
 
 func main() {
+	if nohb.IsWorker() {
+		nohb.WorkerMain(reentrantOps(), reentrantRepoDir())
+		return
+	}
 	zasn1.AllowPermissiveParsing = false // strict mode, set once
 	debug.SetGCPercent(400)              // the run-time constructed types are permanent heap; collect less often
 	initKinds()
 	initOpts()
 	initLeaves()
 	ev.Main("C18", "model_checking", func(c *ev.Ctx) {
-		c.Rule("types = reflect.StructOf over (kind x option) field specs passing the documented-domain predicate: all 1- and 2-field structs, 3-field structs over a reduced grid, struct-in-struct and slice-of-struct over every 1-field inner type; values = full product of per-kind alphabets (<=2 fields), <=2 deviations from a baseline (3 fields); a case is non-trivial when Marshal succeeded, no documented limitation applied and the encoding is not the empty SEQUENCE. Verdicts per case: Marshal succeeds on the domain; its output is well-formed DER (walker), IS the encoding of the value under the declared type (typed walker: class, tag number, constructed bit and content octets of every component, EXPLICIT wrappers and IMPLICIT-tagged contents included, expected identifier computed by the harness from the field options) and equals Go's encoding/asn1.Marshal of the same value/type byte for byte; strict Unmarshal consumes everything and yields an equal value; re-Marshal reproduces the bytes; Go's encoding/asn1.Unmarshal reads the bytes as the same value")
+		c.Rule("types = reflect.StructOf over (kind x option) field specs passing the documented-domain predicate: all 1- and 2-field structs, 3-field structs over a reduced grid, struct-in-struct and slice-of-struct over every 1-field inner type; values = full product of per-kind alphabets (<=2 fields), <=2 deviations from a baseline (3 fields); a case is non-trivial when Marshal succeeded, no documented limitation applied and the encoding is not the empty SEQUENCE. Verdicts per case: Marshal succeeds on the domain; its output is well-formed DER (walker), IS the encoding of the value under the declared type (typed walker: class, tag number, constructed bit and content octets of every component, EXPLICIT wrappers and IMPLICIT-tagged contents included, expected identifier computed by the harness from the field options) and equals Go's encoding/asn1.Marshal of the same value/type byte for byte; strict Unmarshal consumes everything and yields an equal value; re-Marshal reproduces the bytes; Go's encoding/asn1.Unmarshal reads the bytes as the same value. Option-token ORDER (perm.go): every option set of the alphabet with >=2 tokens is additionally written in EVERY other permutation of its tokens (2 tokens: 1, 3: 5, 4: 23 further orders) on 1-field structs of every kind (extended alphabets), on 2-field structs with an int successor (int, string), and as the outer option of the nested shapes; the expectation (typed walker) does not depend on the order. Tag NUMBER: structs with two OPTIONAL members of one kind that differ only in the tag number, per class {context, application, private} x {IMPLICIT, EXPLICIT} x number pairs {(0,1),(1,0),(1,2),(3,0),(0,3)} x every permutation of either member's tokens x the full value product (quick: 9 kinds, thorough: all), which includes earlier-absent/later-present (counted), where a wrong tag number changes the decoded value")
 		c.Assume(
 			"asn1.AllowPermissiveParsing=false for the whole process",
 			"domain predicate (domain.go): RawValue only with ''/optional; Flag only on optional fields; set on structs/slices; omitempty on slices; default only with optional on integers; string/time type options on strings/times",
@@ -301,7 +330,7 @@ func main() {
 			"limitations exempt from the round trip (still must not panic): IMPLICIT tag on a Go type that stands for a CHOICE when the options do not fix the alternative (string without string-type option holding non-PrintableString characters: documented; time.Time without 'generalized' whose year needs GeneralizedTime: same reason); omitempty without optional on an empty slice; OPTIONAL struct equal to zero only up to nil==empty; strings that are not valid UTF-8; inconsistent BitString / RawValue; OID arcs or Enumerated beyond int32; time zone offsets with seconds",
 			"equalities: SET OF up to order, times as instants truncated to the second, nil==empty slices, absent OPTIONAL==zero value, RawValue by the element it denotes",
 			"typed walker (typed.go): where the documentation leaves a choice every alternative is accepted: a string without string-type option may be UTF8String or any of Printable/IA5/NumericString whose repertoire holds the value, time.Time without option UTCTime (1950..2049) or GeneralizedTime, a component that equals its zero value/DEFAULT (OPTIONAL) or is an empty omitempty slice may be absent or present",
-			"Go's encoding/asn1 (the version this binary is built with) as a second oracle for values inside the domain: Marshal must give identical bytes (the fork documents no deliberate Marshal difference; 0 differences on the unchanged tree); Unmarshal must return the same value, except the two rejection classes where the fork is deliberately more capable than the standard library (repaired defects da54108 / 5a1db0a, still present upstream): 'explicitly tagged member didn't match' on types with an EXPLICIT PRIVATE tag, 'explicit tag has no child' on types with an OPTIONAL EXPLICIT component; outside the domain both comparisons stay observations",
+			"Go's encoding/asn1 (the version this binary is built with) as a second oracle for values inside the domain: Marshal must give identical bytes (the fork documents no deliberate Marshal difference; 0 differences on the unchanged tree); Unmarshal must return the same value, except the two rejection classes where the fork is deliberately more capable than the standard library (repaired defects da54108 / 5a1db0a, still present upstream): 'explicitly tagged member didn't match' on types with an EXPLICIT PRIVATE tag, 'explicit tag has no child' on types with an OPTIONAL EXPLICIT component, and (the first defect on an OPTIONAL component: the standard library takes the PRIVATE element for another tag and reads the component as absent) a different decoded value on types with an OPTIONAL EXPLICIT PRIVATE component; outside the domain both comparisons stay observations",
 		)
 
 		if c.Replay != nil {
@@ -429,6 +458,11 @@ func main() {
 				}
 			}
 		}
+		pjobs, pinfo := permJobs(quick, outerStruct, outerSlice)
+		for i := range pjobs {
+			jobs = append(jobs, job{shape: 6, p: &pjobs[i]})
+		}
+		c.Set("option_order_and_tag_number_types", pinfo)
 		c.Set("field_specs", nS)
 		c.Set("kinds", len(kinds))
 		c.Set("options", len(optStrings))
@@ -489,6 +523,8 @@ func main() {
 				t = structNode([]tfield{specs[j.a], specs[j.b]})
 			case 3:
 				t = structNode([]tfield{specs[j.a], specs[j.b], specs[j.d]})
+			case 6:
+				t = j.p.t
 			case 4, 5:
 				inner := structNode([]tfield{specs[j.a]})
 				var f tfield
@@ -506,15 +542,19 @@ func main() {
 					t = structNode([]tfield{f})
 				}
 			}
-			if ambiguous(t.fields) {
+			sname := shapeName[j.shape]
+			if j.shape == 6 {
+				sname = j.p.name
+			}
+			if !typeOK(t) {
 				mu.Lock()
-				exclAmbig[shapeName[j.shape]]++
+				exclAmbig[sname]++
 				mu.Unlock()
 				return
 			}
 			a.types++
 			mu.Lock()
-			typesByShape[shapeName[j.shape]]++
+			typesByShape[sname]++
 			mu.Unlock()
 			switch j.shape {
 			case 1, 2:
@@ -569,6 +609,14 @@ func main() {
 						}
 					}
 				}
+			case 6:
+				vals := valuesOf(t, j.p.level)
+				for i := range vals {
+					if j.p.name == shapePerm4 && earlierAbsentLaterPresent(t, &vals[i]) {
+						a.hist["two optionals by tag number: earlier absent, later present"]++
+					}
+					eval(a, t, &vals[i])
+				}
 			case 4:
 				for _, ix := range alphabet(specs[j.a].t.leaf, lvN) {
 					vn := &vnode{Kids: []vnode{{Kids: []vnode{{Idx: ix}}}}}
@@ -621,6 +669,7 @@ func main() {
 		}
 		sort.Strings(al)
 		c.Set("alphabet_sizes_level1/2/3", al)
+		reentrantPhase(c)
 		c.Set("alphabet_level_by_shape", map[string]int{"1-field": lv1, "2-field": lv2, "3-field": lv3, "nested": lvN})
 	})
 }
